@@ -552,8 +552,10 @@ fn run_fname_gen(r: &mut Rng, n: u64, any_col: bool) {
                     let mut v = vec![a.clone(), b, cc, d];
                     // positions that are not a token's own: to the right of it, on the next line, on a later line -- whenever the closest preceding
                     // token (C04) is still this one, every position-based entry point answers what this token answers
+                    // (only when no other token shares this token's position: among equal positions a query to the right finds the last one)
+                    let alone = ti + 1 >= sorted.len() || (sorted[ti + 1].dl, sorted[ti + 1].dc) != (l, c);
                     for (l2, c2) in [(l, c.saturating_add(1)), (l.saturating_add(1), 0), (l.saturating_add(1), c), (l.saturating_add(7), 2)] {
-                        if sm.lookup_token(l2, c2).map(|t| t.get_raw_token()) == Some(sm.get_token(ti).unwrap().get_raw_token()) && sm.lookup_token(l2, c2).map(|t| t.get_dst()) == Some((l, c)) {
+                        if alone && sm.lookup_token(l2, c2).map(|t| t.get_raw_token()) == Some(sm.get_token(ti).unwrap().get_raw_token()) && sm.lookup_token(l2, c2).map(|t| t.get_dst()) == Some((l, c)) {
                             v.push(norm(sm.get_original_function_name(l2, c2, &name, &sv)));
                             v.push(norm(sourcemap::DecodedMap::Regular(sm.clone()).get_original_function_name(l2, c2, Some(&name), Some(&sv)))); } }
                     v })).unwrap_or(vec!["panic".into()]);
